@@ -141,6 +141,10 @@ func upstreamFaults(run *lib.Run, w *world, root *lib.RNG, direct, viaUp *child)
 						}
 						c.f = &fault{kind: "cut", cut: k, rst: rst, framing: framing}
 						add(c)
+						if w.bodylog != nil && route != "upstream-mitm" && m == "GET" {
+							c.child = w.bodylog
+							add(c)
+						}
 					}
 				}
 			}
